@@ -183,8 +183,24 @@ def guess_als(shape, R, g, seed):
     return w, fs
 
 
+def _frac_matrix(rows, cols, salt):
+    """explicit non-integer positive entries in (0.05, 1.05) without structure (a fixed formula, no random stream)"""
+    import math
+
+    return np.array([[0.05 + (math.sin(12.9898 * (i + 1) + 78.233 * (j + 1) + 37.7 * salt) * 43758.5453) % 1.0
+                      for j in range(cols)] for i in range(rows)])
+
+
 def guess_apr(shape, R, g, seed):
-    """non-negative guesses: g=0 positive; g=1 one all-zero row in mode 0; g=2 zero entries and non-unit weights"""
+    """non-negative guesses: g=0 positive integers; g=1 one all-zero row in mode 0; g=2 zero entries and non-unit
+    weights; g=3 positive non-integers; g=4 positive non-integers with a tiny (2^-20) first row in mode 0 and last row
+    in the last mode (rows that belong to the empty slices of the count members); g=5 positive non-integers, other salt"""
+    if g in (3, 4, 5):
+        fs = [_frac_matrix(s, R, 3 * n + g + seed + 1) for n, s in enumerate(shape)]
+        if g == 4:
+            fs[0][0, :] *= 2.0 ** -20
+            fs[-1][-1, :] *= 2.0 ** -20
+        return np.ones(R), fs
     fs = [_pos_matrix(s, R, 2 * n + g + seed) for n, s in enumerate(shape)]
     w = np.ones(R)
     if g == 1:
@@ -363,6 +379,64 @@ def _base_orders(N, tier, full=False):
     return out
 
 
+def _few_perms(N):
+    """a generating set of relabellings (reversal, rotation, one transposition) for the bases that do not get all N!"""
+    ident = list(range(N))
+    out = []
+    for p in (ident[::-1], ident[1:] + ident[:1], [1, 0] + ident[2:]):
+        if p != ident and p not in out:
+            out.append(p)
+    return out
+
+
+def _als_bases(N, k, th):
+    """(dimorder, optdims, stoptol, guess, relabellings) of the CP-ALS base lattice"""
+    ident = list(range(N))
+    allm = list(range(N))
+    three = _base_orders(N, None)
+    out = []
+    if not th:
+        for do in three:
+            for od in (allm, list(range(1, N))):
+                for st in (0.0, 1e-2):
+                    if not (k == 1 and st > 0):
+                        out.append((do, od, st, 0, "all"))
+        return out
+    orders = _perms(N) if N <= 3 else three + [[1, 0, 2, 3], [0, 2, 1, 3], [2, 0, 3, 1]]
+    for do in orders:
+        out.append((do, allm, 0.0, 0, "all" if (N <= 3 or do in three[:2]) else "few"))
+    for do in three:
+        for od in (list(range(1, N)), [N // 2]):
+            out.append((do, od, 0.0, 0, "all" if N <= 3 else "few"))
+    if k >= 2:
+        for st in (1e-2, 1e-4):
+            for do in three[:2]:
+                out.append((do, allm, st, 0, "all" if N <= 3 else "few"))
+    for do in three[:2]:
+        out.append((do, allm, 0.0, 1, "few"))
+    return out
+
+
+def _tucker_bases(N, k, th):
+    """(dimorder, stoptol, guess, relabellings) of the Tucker-ALS base lattice"""
+    three = _base_orders(N, None)
+    out = []
+    if not th:
+        for do in [None] + three[1:]:
+            for st in (0.0, 1e-2):
+                out.append((do, st, 0, "all"))
+        return out
+    orders = [None] + (_perms(N)[1:] if N <= 3 else three[1:] + [[1, 0, 2, 3], [2, 0, 3, 1]])
+    for do in orders:
+        out.append((do, 0.0, 0, "all" if (N <= 3 or do is None) else "few"))
+    for do in [None, three[1]]:
+        out.append((do, 1e-2, 0, "all" if N <= 3 else "few"))
+        if k >= 3:
+            out.append((do, 1e-4, 0, "few"))
+    out.append((None, 0.0, 1, "few"))
+    return out
+
+
 def gen_cases(tier, seed):
     th = tier == "thorough"
     shapes = SHAPES_T if th else SHAPES_Q
@@ -371,30 +445,28 @@ def gen_cases(tier, seed):
     # ---- hosvd (cheapest first)
     for shape in shapes:
         N = len(shape)
+        three = _base_orders(N, None)
         for d in members(shape, "hosvd", tier, seed):
             rankvecs = [[1] * N, [min(2, s) for s in shape]] + ([[max(1, s - 1) for s in shape], list(shape)] if th else [])
             for seq in (True, False):
-                for do in [None] + _base_orders(N, tier, full=th and N <= 3):
+                orders = [None] + (three if not th else (_perms(N) if N <= 3 else three + [[1, 0, 2, 3], [2, 0, 3, 1]]))
+                for do in orders:
+                    pm = "all" if (not th or N <= 3 or do is None or do == three[0]) else "few"
                     for tol in ([1e-8, 0.1, 0.3, 0.6] + ([0.05, 0.9] if th else [])):
                         yield {"check": "hosvd", "data": d, "tol": tol, "ranks": None, "seq": seq, "dimorder": do,
-                               "tier": tier}
+                               "tier": tier, "perms": pm}
                     for rv in rankvecs:
                         yield {"check": "hosvd", "data": d, "tol": 1e-8, "ranks": rv, "seq": seq, "dimorder": do,
-                               "tier": tier}
+                               "tier": tier, "perms": pm}
     # ---- cp_als
     for shape in shapes:
         N = len(shape)
         for d in members(shape, "cp_als", tier, seed):
             for R in (1, 2, 3):
                 for k in ks:
-                    for g in ((0, 1) if th else (0,)):
-                        for do in _base_orders(N, tier, full=th and N <= 3):
-                            for od in ([list(range(N)), list(range(1, N))] + ([[N // 2]] if th else [])):
-                                for st in ((0.0, 1e-2, 1e-4) if th else (0.0, 1e-2)):
-                                    if k == 1 and st > 0:
-                                        continue
-                                    yield {"check": "cp_als", "data": d, "rank": R, "k": k, "init": {"kind": "given", "g": g},
-                                           "dimorder": do, "optdims": od, "stoptol": st, "tier": tier, "seed": seed}
+                    for do, od, st, g, pm in _als_bases(N, k, th):
+                        yield {"check": "cp_als", "data": d, "rank": R, "k": k, "init": {"kind": "given", "g": g},
+                               "dimorder": do, "optdims": od, "stoptol": st, "tier": tier, "seed": seed, "perms": pm}
                     if k >= 2:
                         for ini in [{"kind": "random", "s": s} for s in seeds] + ([{"kind": "nvecs"}] if R <= min(shape) else []):
                             yield {"check": "cp_als", "data": d, "rank": R, "k": k, "init": ini, "dimorder": None,
@@ -408,11 +480,9 @@ def gen_cases(tier, seed):
                 ranks += [[max(1, s - 1) for s in shape]]
             for rk in ranks:
                 for k in ks:
-                    for g in ((0, 1) if th else (0,)):
-                        for do in [None] + _base_orders(N, tier, full=th and N <= 3)[1:]:
-                            for st in ((0.0, 1e-2, 1e-4) if th else (0.0, 1e-2)):
-                                yield {"check": "tucker_als", "data": d, "rank": rk, "k": k, "init": {"kind": "given", "g": g},
-                                       "dimorder": do, "stoptol": st, "tier": tier, "seed": seed}
+                    for do, st, g, pm in _tucker_bases(N, k, th):
+                        yield {"check": "tucker_als", "data": d, "rank": rk, "k": k, "init": {"kind": "given", "g": g},
+                               "dimorder": do, "stoptol": st, "tier": tier, "seed": seed, "perms": pm}
                     if k >= 2:
                         for ini in [{"kind": "random", "s": s} for s in seeds] + [{"kind": "nvecs"}]:
                             for do in ([None, list(range(N))[::-1]] if th else [None]):
@@ -439,7 +509,7 @@ def gen_cases(tier, seed):
                         yield {"check": "gcp_opt", "data": d, "objective": oname, "rank": R, "k": k,
                                "init": {"kind": "random", "s": s}, "tier": tier, "seed": seed}
     # ---- cp_apr (most expensive last)
-    for shape in shapes:
+    for shape in (shapes if not th else SHAPES_Q + [(4, 3, 2), (2, 2, 2, 3)]):
         for d in members(shape, "cp_apr", tier, seed):
             for alg in ("mu", "pdnr", "pqnr"):
                 optsets = [{}, {"maxinneriters": 3}]
@@ -449,9 +519,9 @@ def gen_cases(tier, seed):
                     optsets.append({"stoptol": 1e-2})
                 for R in ((1, 2, 3) if th else (1, 2)):
                     for k in ks:
-                        for g in (0, 1, 2):
+                        for g in ((0, 1, 2, 3, 4, 5) if th else (0, 1, 2, 3, 4)):
                             for o in optsets:
-                                if o and g == 2 and not th:
+                                if o and g not in (0, 3):
                                     continue
                                 yield {"check": "cp_apr", "data": d, "alg": alg, "rank": R, "k": k,
                                        "init": {"kind": "given", "g": g}, "opts": o, "tier": tier, "seed": seed}
@@ -468,7 +538,7 @@ def variants(case):
     th = case.get("tier", "quick") == "thorough"
     N = len(case["data"]["shape"])
     kind = case.get("init", {}).get("kind", "given")
-    perms = _perms(N)[1:]
+    perms = _perms(N)[1:] if case.get("perms", "all") == "all" else _few_perms(N)
     out = []
     if alg == "cp_als":
         if kind == "given":
@@ -480,7 +550,7 @@ def variants(case):
             if th:
                 out += [{"rel": "sparse", "printitn": p} for p in (2, 3)]
                 out += [{"rel": "scale", "c": 0.25, "holder": "sptensor"}]
-                out += [{"rel": "relabel", "perm": p, "holder": "sptensor"} for p in perms]
+                out += [{"rel": "relabel", "perm": p, "holder": "sptensor"} for p in (perms if N <= 3 else _few_perms(N))]
         elif kind == "random":
             out += [{"rel": "seed"}, {"rel": "sparse", "printitn": 0}, {"rel": "print", "printitn": 1}]
             if th:
@@ -494,7 +564,7 @@ def variants(case):
             out += [{"rel": "print", "printitn": p, "printinneritn": q} for p, q in combos]
             if case["alg"] in ("pdnr", "pqnr"):
                 out += [{"rel": "sparse", "printitn": 0, "printinneritn": 0, "precompinds": False}]
-            if th:
+            if th and case["init"].get("g") in (0, 3):
                 out += [{"rel": "sparse", "printitn": p, "printinneritn": q} for p, q in combos if (p, q) != (1, 1)]
         else:
             out += [{"rel": "seed"}, {"rel": "sparse", "printitn": 0, "printinneritn": 0},
